@@ -11,7 +11,9 @@ Reqs == {[kind |-> kd, pt |-> p] : kd \in {"f", "fg", "g"}, p \in 1..2}
 Init == /\ \E mask \in Masks : \E nested \in BOOLEAN : \E two \in BOOLEAN : \E script \in [1..L -> Reqs] : \E backend \in {"script", "scipy"} :
              /\ (nested => \E v \in 1..3 : ~mask[v]) /\ (two => FreeCount(mask) >= 2)
              /\ (backend = "scipy" => ~nested)
-             /\ sc = [mask |-> mask, nested |-> nested, two |-> two, script |-> script, backend |-> backend]
+             /\ \E row \in BOOLEAN :        \* the back-end hands its points over as one-row matrices (population style)
+                  /\ (row => backend = "script")
+                  /\ sc = [mask |-> mask, nested |-> nested, two |-> two, script |-> script, backend |-> backend, row |-> row]
         /\ fixed = X0 /\ k = 0 /\ sent = <<>>
 \* free values requested at pool point p
 XF(p, mask) == [i \in 1..FreeCount(mask) |-> IF p = 1 THEN 1 ELSE 4 - i]
